@@ -101,10 +101,10 @@ func NewDriver(ctx *RunCtx, c *simrt.Chooser, env *Env, policy int, name string,
 	d := &Driver{Ctx: ctx, C: c, Env: env, Policy: policy, Name: name, prio: map[int]int{}, mapCalls: map[string]int{}, StepBudget: 20000, starve: -1}
 	d.S = simrt.NewSched(c, log)
 	d.S.MapOrder = func(site string, n int) []int {
+		d.mapCalls[site]++
 		if d.MapSalt == 0 {
 			return nil
 		}
-		d.mapCalls[site]++
 		d.MapPermuted++
 		return simrt.PermFromHash(simrt.HashSite(d.MapSalt, site, d.mapCalls[site]), n)
 	}
@@ -384,3 +384,5 @@ func InitParams(root string, useFolders bool, cfgCapability bool, initOptions an
 }
 
 func jsonMarshal(v any) ([]byte, error) { return json.Marshal(v) }
+
+func jsonUnmarshal(b []byte, v any) error { return json.Unmarshal(b, v) }
